@@ -179,7 +179,7 @@ def normalize_piece_length(piece_length: int) -> int:
             raise PieceLengthValueError(piece_length)
 
     if piece_length > (1 << 14):
-        if 2**math.log2(piece_length) == piece_length:
+        if piece_length & (piece_length - 1) == 0:
             return piece_length
         raise PieceLengthValueError(piece_length)
 
